@@ -1112,3 +1112,352 @@ func (c *Ctx) ruleRootArg() {
 		c.unresolved("StorageAPI calls with a root parameter in " + dir)
 	}
 }
+
+// R-DECODEASSIGN (C07): a fixed-size SCALE decoder assigns what it decoded, whatever the bytes were.
+func (c *Ctx) ruleDecodeAssign(dir string) {
+	c.doc("R-DECODEASSIGN", dir+": every UnmarshalSCALE method stores the decoded value through its receiver on every path to a nil-error return; a store skipped for some decoded value (e.g. all zero bytes) makes that value decode to the receiver's previous/empty state and re-encode differently")
+	sp := c.ssaPkg(dir)
+	if sp == nil {
+		return
+	}
+	n := 0
+	for _, f := range allFuncs(c, sp) {
+		if f.Name() != "UnmarshalSCALE" || f.Signature.Recv() == nil || len(f.Blocks) == 0 {
+			continue
+		}
+		recv := f.Params[0]
+		var stores []ssa.Instruction
+		eachInstr(f, func(_ *ssa.BasicBlock, _ int, in ssa.Instruction) {
+			if st, ok := in.(*ssa.Store); ok {
+				base := st.Addr
+				for {
+					switch x := base.(type) {
+					case *ssa.FieldAddr:
+						base = x.X
+						continue
+					case *ssa.IndexAddr:
+						base = x.X
+						continue
+					}
+					break
+				}
+				if base == ssa.Value(recv) {
+					stores = append(stores, st)
+				}
+			}
+		})
+		n++
+		bad := ""
+		entry := f.Blocks[0].Instrs[0]
+		for _, b := range f.Blocks {
+			if len(b.Instrs) == 0 {
+				continue
+			}
+			ret, ok := b.Instrs[len(b.Instrs)-1].(*ssa.Return)
+			if !ok || len(ret.Results) == 0 {
+				continue
+			}
+			if k, isC := resultOf(ret, len(ret.Results)-1).(*ssa.Const); !isC || k.Value != nil {
+				continue // error return
+			}
+			// reachable from entry while avoiding every store?
+			avoidAll := true
+			if len(stores) == 1 {
+				avoidAll = entry == ssa.Instruction(ret) || reachesAvoidingInstr(entry, ret, stores[0])
+			} else if len(stores) > 1 {
+				avoidAll = false
+				// conservative: some store must dominate the return
+				dom := false
+				for _, st := range stores {
+					if instrDominates(st, ret) {
+						dom = true
+					}
+				}
+				avoidAll = !dom
+			}
+			if avoidAll {
+				bad = c.pos(ret.Pos())
+			}
+		}
+		c.ob("R-DECODEASSIGN", relName(f.String())+":assigns-on-success", f.Pos(), bad == "", "a nil-error return at "+bad+" is reachable without storing the decoded value into the receiver")
+	}
+	if n == 0 {
+		c.unresolved("UnmarshalSCALE methods in " + dir)
+	}
+}
+
+// R-EACHKEY (C05): every requested key is walked.
+func (c *Ctx) ruleEachKey() {
+	dir := "pkg/trie/inmemory/proof"
+	c.doc("R-EACHKEY", dir+" Generate: in the loop over the requested keys every iteration reaches the walk (walkRoot) of that key — no `continue` path skips a key: since values stored by hash are emitted by the walk of their own key, a key skipped because a longer key shares its path loses its value")
+	f := c.fn(dir, "Generate")
+	if f == nil {
+		c.unresolved(dir + ".Generate")
+		return
+	}
+	// the loop ranging over the keys parameter
+	var keys ssa.Value
+	for _, p := range f.Params {
+		if s1, ok := p.Type().Underlying().(*types.Slice); ok {
+			if s2, ok := s1.Elem().Underlying().(*types.Slice); ok && isByte(s2.Elem()) {
+				keys = p
+			}
+		}
+	}
+	var walk *ssa.Call
+	eachInstr(f, func(_ *ssa.BasicBlock, _ int, in ssa.Instruction) {
+		if call, ok := in.(*ssa.Call); ok && call.Call.StaticCallee() != nil && call.Call.StaticCallee().Pkg == f.Pkg {
+			// the walk: a package function handed (nibbles of) an element of keys
+			for _, a := range call.Call.Args {
+				for v := range backwardSlice(a, nil) {
+					if ia, ok := v.(*ssa.IndexAddr); ok && ia.X == keys {
+						walk = call
+					}
+				}
+			}
+		}
+	})
+	if keys == nil || walk == nil {
+		c.unresolved("the per-key walk in Generate")
+		return
+	}
+	// the loop containing the walk: innermost natural loop whose body holds the walk's block
+	var loop map[*ssa.BasicBlock]bool
+	var header *ssa.BasicBlock
+	for _, l := range loopsOf(f) {
+		if l[walk.Block()] && (loop == nil || len(l) < len(loop)) {
+			loop = l
+		}
+	}
+	if loop == nil {
+		c.ob("R-EACHKEY", "Generate:walk-in-loop", walk.Pos(), false, "the walk is not inside a loop over the keys")
+		return
+	}
+	for b := range loop {
+		isHeader := false
+		for _, p := range b.Preds {
+			if !loop[p] {
+				isHeader = true
+			}
+		}
+		if isHeader {
+			header = b
+		}
+	}
+	// a path from the header back to the header (a full iteration) that avoids the walk's block
+	skip := false
+	if header != nil {
+		seen := map[*ssa.BasicBlock]bool{}
+		var stack []*ssa.BasicBlock
+		for _, s := range header.Succs {
+			if loop[s] {
+				stack = append(stack, s)
+			}
+		}
+		for len(stack) > 0 {
+			x := stack[len(stack)-1]
+			stack = stack[:len(stack)-1]
+			if x == header {
+				skip = true
+				break
+			}
+			if seen[x] || x == walk.Block() || !loop[x] {
+				continue
+			}
+			seen[x] = true
+			stack = append(stack, x.Succs...)
+		}
+	}
+	c.ob("R-EACHKEY", "Generate:every-key-walked", walk.Pos(), header != nil && !skip, "an iteration of the key loop can return to the loop head without walking its key")
+}
+
+// R-SORTEDKEYS (C08): the transaction's sorted key list stays sorted and duplicate-free.
+func (c *Ctx) ruleSortedKeys() {
+	dir := "lib/runtime/storage"
+	c.doc("R-SORTEDKEYS", dir+": storageDiff.sortedKeys (binary-searched by NextKey) only grows on the not-found edge of a binary search for the inserted key — or at the end when the list is empty or the key is STRICTLY greater than its last element — and only shrinks on the found edge: a duplicate entry makes NextKey return the key itself or a deleted key")
+	sp := c.ssaPkg(dir)
+	if sp == nil {
+		return
+	}
+	isSK := func(v ssa.Value) bool {
+		_, fv, ok := fieldLoad(v)
+		return ok && fv != nil && fv.Name() == "sortedKeys"
+	}
+	n := 0
+	for _, f := range allFuncs(c, sp) {
+		ord := 0
+		eachInstr(f, func(b *ssa.BasicBlock, _ int, in ssa.Instruction) {
+			st, ok := in.(*ssa.Store)
+			if !ok {
+				return
+			}
+			fa, ok := st.Addr.(*ssa.FieldAddr)
+			if !ok || fieldVar(fa) == nil || fieldVar(fa).Name() != "sortedKeys" {
+				return
+			}
+			call, ok := st.Val.(*ssa.Call)
+			if !ok || calleeName(&call.Call) != "builtin.append" {
+				return
+			}
+			base := call.Call.Args[0]
+			grow := isSK(base)
+			shrink := false
+			if sl, ok := base.(*ssa.Slice); ok && isSK(sl.X) {
+				shrink = true
+			}
+			if !grow && !shrink {
+				return
+			}
+			n++
+			ord++
+			searchEdge := func(cond ssa.Value, truth bool, wantFound bool) bool {
+				if u, ok := cond.(*ssa.UnOp); ok && u.Op == token.NOT {
+					cond, truth = u.X, !truth
+				}
+				ex, ok := cond.(*ssa.Extract)
+				if !ok || ex.Index != 1 {
+					return false
+				}
+				sc, ok := ex.Tuple.(*ssa.Call)
+				if !ok || !strings.Contains(calleeName(&sc.Call), "slices.BinarySearch") {
+					return false
+				}
+				return isSK(sc.Call.Args[0]) && truth == wantFound
+			}
+			endEdge := func(cond ssa.Value, truth bool) bool {
+				bo, ok := cond.(*ssa.BinOp)
+				if !ok {
+					return false
+				}
+				isLen := func(v ssa.Value) bool {
+					lc, ok := v.(*ssa.Call)
+					return ok && calleeName(&lc.Call) == "builtin.len" && isSK(lc.Call.Args[0])
+				}
+				isLast := func(v ssa.Value) bool {
+					u, ok := v.(*ssa.UnOp)
+					if !ok || u.Op != token.MUL {
+						return false
+					}
+					ia, ok := u.X.(*ssa.IndexAddr)
+					if !ok || !isSK(ia.X) {
+						return false
+					}
+					sub, ok := ia.Index.(*ssa.BinOp)
+					if !ok || sub.Op != token.SUB || !isLen(sub.X) {
+						return false
+					}
+					k, isC := constInt(sub.Y)
+					return isC && k == 1
+				}
+				if isLen(bo.X) {
+					if k, isC := constInt(bo.Y); isC && k == 0 {
+						return (bo.Op == token.EQL && truth) || (bo.Op == token.NEQ && !truth) || (bo.Op == token.GTR && !truth)
+					}
+				}
+				if _, isParam := bo.X.(*ssa.Parameter); isParam && isLast(bo.Y) {
+					return (bo.Op == token.GTR && truth) || (bo.Op == token.LEQ && !truth)
+				}
+				if _, isParam := bo.Y.(*ssa.Parameter); isParam && isLast(bo.X) {
+					return (bo.Op == token.LSS && truth) || (bo.Op == token.GEQ && !truth)
+				}
+				return false
+			}
+			okGuard := false
+			if shrink {
+				okGuard = guardedBy(b, func(cond ssa.Value, truth bool) bool { return searchEdge(cond, truth, true) })
+			} else {
+				okGuard = guardedBy(b, func(cond ssa.Value, truth bool) bool { return searchEdge(cond, truth, false) || endEdge(cond, truth) })
+				if !okGuard && len(b.Preds) > 0 {
+					// `a || b`: every edge into the block carries an accepted condition
+					all := true
+					for _, p := range b.Preds {
+						iff := ifOf(p)
+						if iff == nil || !(endEdge(iff.Cond, p.Succs[0] == b) || searchEdge(iff.Cond, p.Succs[0] == b, false)) {
+							all = false
+						}
+					}
+					okGuard = all
+				}
+			}
+			what := "grows"
+			if shrink {
+				what = "shrinks"
+			}
+			c.ob("R-SORTEDKEYS", fmt.Sprintf("%s:%s#%d", relName(f.String()), what, ord), st.Pos(), okGuard,
+				"sortedKeys "+what+" here without the matching binary-search edge (grow: not found / strictly greater than the last; shrink: found)")
+		})
+	}
+	if n == 0 {
+		c.unresolved("growth/shrink sites of storageDiff.sortedKeys")
+	}
+}
+
+// R-FRESHMAP (C03): a snapshot never shares its child-trie map with the trie it was taken from.
+func (c *Ctx) ruleFreshMap() {
+	c.doc("R-FRESHMAP", inmemDir+": every store into the childTries field of a trie constructed by Snapshot/DeepCopy is a map made in that function on every path (never the source trie's own map, not even when it is empty): the map is keyed by child root hash and mutated in place by the child operations of either side")
+	n := 0
+	for _, name := range []string{"(*InMemoryTrie).Snapshot", "(*InMemoryTrie).DeepCopy"} {
+		f := c.fn(inmemDir, name)
+		if f == nil {
+			c.unresolved(inmemDir + " " + name)
+			continue
+		}
+		ord := 0
+		eachInstr(f, func(_ *ssa.BasicBlock, _ int, in ssa.Instruction) {
+			st, ok := in.(*ssa.Store)
+			if !ok {
+				return
+			}
+			fa, ok := st.Addr.(*ssa.FieldAddr)
+			if !ok || fieldVar(fa) == nil || fieldVar(fa).Name() != "childTries" {
+				return
+			}
+			if _, fresh := fa.X.(*ssa.Alloc); !fresh {
+				return // not the trie under construction
+			}
+			n++
+			ord++
+			bad := ""
+			seen := map[ssa.Value]bool{}
+			var walk func(v ssa.Value)
+			walk = func(v ssa.Value) {
+				if v == nil || seen[v] || bad != "" {
+					return
+				}
+				seen[v] = true
+				switch x := v.(type) {
+				case *ssa.MakeMap:
+				case *ssa.Phi:
+					for _, e := range x.Edges {
+						walk(e)
+					}
+				case *ssa.Const:
+					if x.Value != nil {
+						bad = "a constant"
+					}
+				case *ssa.UnOp:
+					if al, ok := x.X.(*ssa.Alloc); ok && x.Op == token.MUL {
+						for _, r := range *al.Referrers() {
+							if s2, ok := r.(*ssa.Store); ok && s2.Addr == ssa.Value(al) {
+								walk(s2.Val)
+							}
+						}
+						return
+					}
+					if _, fv, ok := fieldLoad(x); ok && fv != nil {
+						bad = "the field " + fv.Name() + " of another trie"
+						return
+					}
+					bad = x.String()
+				default:
+					bad = v.String()
+				}
+			}
+			walk(st.Val)
+			c.ob("R-FRESHMAP", fmt.Sprintf("%s:childTries#%d", name, ord), st.Pos(), bad == "", "the new trie's childTries can be "+bad)
+		})
+	}
+	if n == 0 {
+		c.unresolved("childTries stores in Snapshot/DeepCopy")
+	}
+}
